@@ -126,7 +126,7 @@ void fillGarbage(uint32_t *m, uint32_t words, uint64_t seed) {
 
 std::string hx(uint32_t v) { char b[16]; std::snprintf(b, sizeof b, "%08x", v); return b; }
 
-struct Teleport { uint64_t at; uint32_t pc, a, b, o; bool hasMem; uint32_t maddr, mval; };
+struct Teleport { uint64_t at; uint32_t pc, a, b, o; bool hasMem; uint32_t maddr, mval; bool hasSp = false; uint32_t sp = 0; };
 struct Pulse { uint64_t at; unsigned len; };
 
 // Systematic part of the search: one instruction byte against every combination of the corner
@@ -146,6 +146,11 @@ std::vector<Teleport> gridTeleports(uint8_t inst, uint32_t base) {
       t.pc = base + lane; t.a = a; t.b = b; t.o = o;
       t.hasMem = true; t.maddr = base >> 2;
       t.mval = (0x30303030u & ~(0xFFu << (lane * 8))) | ((uint32_t)inst << (lane * 8));   // neighbours: LDAC 0
+      if (inst == 0xD3) {
+        // System calls address their slots through the stack pointer: breg's corner index picks it.
+        static const uint32_t SP[] = {150000, 0xFFFFFFFFu, 0xFFFFFFFEu, 0xFFFFFFFDu, 0xFFFFFFFCu, 0, 1, 199996, 199997, 199995, 100, 16383};
+        t.hasSp = true; t.sp = SP[(&b - B) % 12];
+      }
       out.push_back(t);
     }
   return out;
@@ -186,6 +191,7 @@ PlanView view(const Json &plan) {
       t.pc = (uint32_t)op.getU64("pc"); t.a = (uint32_t)op.getU64("areg"); t.b = (uint32_t)op.getU64("breg"); t.o = (uint32_t)op.getU64("oreg");
       t.hasMem = op.has("maddr");
       t.maddr = (uint32_t)op.getU64("maddr"); t.mval = (uint32_t)op.getU64("mval");
+      t.hasSp = op.has("sp"); t.sp = (uint32_t)op.getU64("sp");
       v.teleports.push_back(t);
     } else if (k == "simin") { unsigned i = (unsigned)(op.getU64("idx") & 7); v.siminPresent[i] = true; v.simin[i] = sim::fromHex(op.getStr("hex")); }
     else if (k == "simout_pre") { unsigned i = (unsigned)(op.getU64("idx") & 7); v.simoutPrePresent[i] = true; v.simoutPre[i] = sim::fromHex(op.getStr("hex")); }
@@ -428,6 +434,7 @@ public:
         for (auto &t : g) {
           Json j = Json::object();
           j["op"] = "teleport"; j["at"] = (unsigned long long)t.at; j["pc"] = t.pc; j["areg"] = t.a; j["breg"] = t.b; j["oreg"] = t.o; j["maddr"] = t.maddr; j["mval"] = t.mval;
+          if (t.hasSp) j["sp"] = t.sp;
           ops.push(j);
         }
         p["config"]["max_steps"] = (unsigned long long)g.size();
@@ -527,6 +534,7 @@ public:
         ref.pc = t.pc; ref.areg = t.a; ref.breg = t.b; ref.oreg = t.o;
         p->verifSetRegs(t.pc, t.a, t.b, t.o);
         if (t.hasMem && t.maddr < W) { ref.mem[t.maddr] = t.mval; ref.written[t.maddr] = 1; g_dirty.push_back(t.maddr); p->verifMemory()[t.maddr] = t.mval; }
+        if (t.hasSp) { ref.mem[1] = t.sp; ref.written[1] = 1; g_dirty.push_back(1); p->verifMemory()[1] = t.sp; }
         sim::g_log.ev("teleport", t.pc, t.a, t.b);
         o.count("fault.teleport_fired");
         chain = 0;
@@ -670,6 +678,9 @@ public:
     auto resetAll = [&](bool val) { sv.rst(val); if (three) { g_v->rst(val); g_sy->rst(val); } };
     auto edgeAll = [&]() { sv.edge(); if (three) { g_v->edge(); g_sy->edge(); } };
     resetAll(true);
+    // Reset is asynchronous in processor.sv: the replicas must agree as soon as it is asserted, before
+    // any clock edge (a copy with a synchronous reset would still hold its power-on garbage here).
+    if (three) compareReplicas(o, 0, "reset asserted, before any clock edge");
     for (unsigned k = 0; k < v.resetLen; k++) edgeAll();
     auto loadInto = [&](auto &m) { std::memcpy(m.mem(), v.image.data(), v.image.size()); };
     loadInto(sv);
@@ -713,11 +724,12 @@ public:
       while (ti < v.teleports.size() && v.teleports[ti].at <= clk) {
         const Teleport &t = v.teleports[ti++];
         uint32_t tpc = t.pc & 0x1FFFFF;
-        auto tp = [&](auto &m) { m.setRegs(tpc, t.a, t.b, t.o); if (t.hasMem && t.maddr < W) m.mem()[t.maddr] = t.mval; m.settle(); };
+        auto tp = [&](auto &m) { m.setRegs(tpc, t.a, t.b, t.o); if (t.hasMem && t.maddr < W) m.mem()[t.maddr] = t.mval; if (t.hasSp) m.mem()[1] = t.sp; m.settle(); };
         tp(sv); if (three) { tp(*g_v); tp(*g_sy); }
         ref.pc = tpc; ref.areg = t.a; ref.breg = t.b; ref.oreg = t.o;
         p->verifSetRegs(tpc, t.a, t.b, t.o);
         if (t.hasMem && t.maddr < W) { ref.mem[t.maddr] = t.mval; p->verifMemory()[t.maddr] = t.mval; }
+        if (t.hasSp) { ref.mem[1] = t.sp; p->verifMemory()[1] = t.sp; }
         sim::g_log.ev("teleport", tpc, t.a, t.b);
         o.count("fault.teleport_fired");
         chain = 0;
@@ -730,7 +742,9 @@ public:
         if (instAt == 0xD3) o.count("probe.reset_while_svc_at_fetch");
         if (ref.oreg != 0) o.count("probe.reset_inside_prefix_chain");
         resetAll(true);
-        for (unsigned k = 0; k < pu.len; k++) edgeAll();
+        if (three) { compareReplicas(o, clk, "reset pulse asserted, before any clock edge"); if (o.violated) break; }
+        // A pulse may also fall entirely between two clock edges (len 3 of the plan means no edge).
+        for (unsigned k = 0; k < (pu.len == 3 ? 0u : pu.len); k++) edgeAll();
         resetAll(false);
         sv.settle(); if (three) { g_v->settle(); g_sy->settle(); }
         o.count("fault.reset_pulse_fired");
@@ -949,6 +963,7 @@ public:
       a.setRegs(g(), g(), g(), g()); b.setRegs(g(), g(), g(), g()); c.setRegs(g(), g(), g(), g());
     }
     a.rst(true); b.rst(true); c.rst(true);
+    compareReplicas(o, 0, "reset asserted, before any clock edge");
     a.edge(); b.edge(); c.edge();
     std::memcpy(b.mem(), a.mem(), (size_t)RTLW * 4);
     std::memcpy(c.mem(), a.mem(), (size_t)RTLW * 4);
@@ -992,7 +1007,8 @@ public:
       if (t.pulse && !o.violated) {
         // Reset pulse at an arbitrary edge.
         a.rst(true); b.rst(true); c.rst(true);
-        a.edge(); b.edge(); c.edge();
+        compareReplicas(o, clk, "reset pulse asserted, before any clock edge");
+        if ((t.readval & 1) == 0) { a.edge(); b.edge(); c.edge(); }      // otherwise the pulse falls between two edges
         a.rst(false); b.rst(false); c.rst(false);
         a.settle(); b.settle(); c.settle();
         compareReplicas(o, clk, "after reset pulse");
